@@ -1,7 +1,9 @@
 #include <thread>
 #include <deque>
 #include <vector>
+#include <cerrno>
 #include <climits>
+#include <cstdlib>
 #include <cstring>
 #include <type_traits>
 #include <unistd.h>
@@ -222,9 +224,18 @@ std::vector<char32_t> parse_delimiters(char *value) {
 void parse_options(program_options &options, int argc, char **argv) {
 	while (true) {
 		switch(getopt(argc, argv, "+w:d:sh")) {
-			case 'w':
-				options.column_width = std::atoi(optarg);
+			case 'w': {
+				// Decimal digits only.  atoi turned garbage into 0, negative numbers
+				// into widths near 2^64 (std::length_error later on) and numbers
+				// beyond INT_MAX into some other width.
+				char *end;
+				errno = 0;
+				unsigned long long width = std::strtoull(optarg, &end, 10);
+				if (*optarg < '0' || *optarg > '9' || *end != '\0' || errno == ERANGE)
+					std::exit(usage(argv));
+				options.column_width = width;
 				continue;
+			}
 
 			case 'd':
 				options.delimiters = parse_delimiters(optarg);
